@@ -46,6 +46,7 @@ let parse_o tok = match String.split_on_char ':' tok with
   | ["ac"; i; j] -> AssignCopy (nn i, nn j) | ["am"; i; j] -> AssignMove (nn i, nn j)
   | ["xac"; i; j] -> AssignConvCopy (nn i, nn j) | ["xam"; i; j] -> AssignConvMove (nn i, nn j)
   | ["em"; i; v] -> Emplace (nn i, nn v) | ["rs"; i] -> Reset (nn i)
+  | ["adr"; i; j; mv] -> AssignDeref (nn i, nn j, mv = "1") | ["edr"; i; j; mv] -> EmplaceDeref (nn i, nn j, mv = "1")
   | ["hv"; i] -> HasValue (nn i) | ["val"; i] -> Value (nn i) | ["vo"; i; d] -> ValueOr (nn i, nn d)
   | ["str"; i] -> ToString (nn i)
   | [c; i; j] when cmp_of c <> None -> (match cmp_of c with Some o -> Cmp (o, nn i, nn j) | None -> assert false)
@@ -63,11 +64,28 @@ let run_o mvz toks =
       | SIll -> acc := fmt "ill" "" (dump !s) :: !acc in
   (* environment operations (getEnvVar.h): es:name:sid  eu:name  gv:slot:kind:name  (kind 0 int, 1 float, 2 string) *)
   let env = ref env0 in
+  let vars = ref vars0 in
   let do_tok t = match String.split_on_char ':' t with
     | ["es"; n; sid] -> if not !dead then begin
         env := fst (estep atoi_code atof_code !env (EnvSet (nn n, nn sid))); acc := fmt "ok" "" (dump !s) :: !acc end
     | ["eu"; n] -> if not !dead then begin
         env := fst (estep atoi_code atof_code !env (EnvUnset (nn n))); acc := fmt "ok" "" (dump !s) :: !acc end
+    (* value operations with a named variable as argument: sv:k:v  vu:member:slot:ty:k:category  vr:k *)
+    | ["sv"; k; v] -> if not !dead then begin
+        (match vstep cfg !s !vars (VSet (nn k, nn v)) with VOk (_, _, _, vs') -> vars := vs' | _ -> ());
+        acc := fmt "ok" "" (dump !s) :: !acc end
+    | ["vr"; k] -> if not !dead then begin
+        (match vstep cfg !s !vars (VRead (nn k)) with
+         | VVal (Some v) -> acc := fmt ("val=" ^ string_of_int (int_of_n v)) "" (dump !s) :: !acc
+         | _ -> acc := fmt "val=none" "" (dump !s) :: !acc) end
+    | ["vu"; m; i; ty; k; c] -> if not !dead then begin
+        let m' = (match m with "0" -> VmCtor | "1" -> VmEmplace | "2" -> VmAssign | _ -> VmMake) in
+        let c' = (match c with "0" -> VPr | "1" -> VX | "2" -> VCL | _ -> VL) in
+        match vstep cfg !s !vars (VUse (m', nn i, ty = "1", nn k, c')) with
+        | VOk (x, s', e, vs') -> s := s'; vars := vs'; acc := fmt (out_s x) (evs_s e) (dump s') :: !acc
+        | VErr ((e, w), l) -> dead := true;
+          acc := fmt ("ERR:" ^ err_s e ^ "@" ^ string_of_int (int_of_n w)) (evs_s l) (dump !s) :: !acc
+        | _ -> acc := fmt "ill" "" (dump !s) :: !acc end
     | ["gv"; i; k; n] ->
       let kd = (match k with "0" -> KInt | "1" -> KFloat | _ -> KStr) in
       List.iter do_op (snd (estep atoi_code atof_code !env (GetEnv (nn i, kd, nn n))))
